@@ -28,8 +28,8 @@ theorem take_append_len {α} (a b : List α) : (a ++ b).take a.length = a := by 
 
 /-- Start-up reconciliation brings every `Ahead` state back to a state that
 represents the indexed log exactly. -/
-theorem reopen_ahead {d : Durable} {l : Log} {xb xf : List Nat} (h : Ahead d l xb xf) :
-    ∃ r, reopen d = some r ∧ Rep r l := by
+theorem reopen_ahead_eq {d : Durable} {l : Log} {xb xf : List Nat} (h : Ahead d l xb xf) :
+    ∃ r, reopen d = some r ∧ (r.bf = { ents := l.blocks } ∧ r.ff = { ents := l.filters } ∧ r.db = d.db) ∧ Rep r l := by
   obtain ⟨tip, htip, hbt⟩ : ∃ tip, l.blocks.getLast? = some tip ∧
       btipHeight? d = some (tip, l.blocks.length - 1) := by
     obtain ⟨tip, htip⟩ : ∃ tip, l.blocks.getLast? = some tip := by
@@ -121,11 +121,16 @@ theorem reopen_ahead {d : Durable} {l : Log} {xb xf : List Nat} (h : Ahead d l x
     simp only [h2, ↓reduceIte, Nat.add_sub_cancel]
     exact ⟨_, rfl, by simp, rfl, rfl⟩
   obtain ⟨d2, hd2, hff2, hbf2, hdb2⟩ := hF
-  refine ⟨d2, by simp [reopen, hd1, hd2], ?_⟩
   have hdb : d2.db = d.db := by rw [hdb2, hdb1]
+  refine ⟨d2, by simp [reopen, hd1, hd2], ⟨by rw [hbf2, hbf1], hff2, hdb⟩, ?_⟩
   exact { bents := by rw [hbf2, hbf1], fents := hff2, neB := h.neB, neF := h.neF,
           nodup := (List.nodup_append.mp h.nodup).1,
           idxPos := by rw [hdb]; exact h.idxPos, idxOnly := by rw [hdb]; exact h.idxOnly,
           btip := by rw [hdb]; exact h.btip, ftip := by rw [hdb]; exact ⟨b, hb, hbh⟩, fle := h.fle }
+
+theorem reopen_ahead {d : Durable} {l : Log} {xb xf : List Nat} (h : Ahead d l xb xf) :
+    ∃ r, reopen d = some r ∧ Rep r l := by
+  obtain ⟨r, h1, _, h2⟩ := reopen_ahead_eq h
+  exact ⟨r, h1, h2⟩
 
 end Neutrino.Store
